@@ -96,6 +96,21 @@ def programs(tier, mode):
                 p['routines']['n0'] = [['yieldv', 'x'], ['yieldv', 'y'],
                                        ['yieldv', 'z']]
                 out.append(p)
+    # the parent's body takes physical time (load) before and after it starts
+    # a child on another clock: the clock thread of the parent then resumes
+    # the overdue parent several times in one batch before the child's clock
+    # gets to run; the child must still start at the parent's logical time
+    if mode == 'rt':
+        for pc, cc in (('s', 't2'), ('s', 't1'), ('t2', 's'), ('t2', 't1')):
+            for blk in (0.5, 1.0):
+                for pos in (0, 1):
+                    p = make_prog((pc, [0.25, 0.25, 0.25]),
+                                  child=(pos, cc, [0.25]))
+                    body = p['routines']['r0']
+                    i = next(k for k, st in enumerate(body)
+                             if st[0] == 'play')
+                    body.insert(i, ['block', blk])
+                    out.append(p)
     # a conductor routine changes the tempo of the clock a player routine is
     # pending on (the player has been awakened before): the player's beats go
     # on exactly, its seconds follow the new tempo
